@@ -99,12 +99,7 @@ func c04Oracle(in c04Input, o selectObs) string {
 		}
 		prevTS = ts
 	}
-	for i := range in.Logs {
-		if o.Opened[i] != 1 || o.Closed[i] != 1 {
-			return fmt.Sprintf("container %d: opened %d, closed %d after Close (expected 1/1)", i, o.Opened[i], o.Closed[i])
-		}
-	}
-	return ""
+	return "" // (opening and closing of readers is C14's subject)
 }
 
 func c04Exec(c *vsched.Ctx, in c04Input) selectObs {
